@@ -19,6 +19,8 @@ package lockedfile
 
 //@ func openFile
 //@   names (f, err)
+//@   ensures flag & 64 == 0 ==> fsExists == old(fsExists)
+//@   ensures flag & 64 == 0 && flag & 512 == 0 ==> fsData == old(fsData) && fsSize == old(fsSize)
 //@   ensures forall p int {fsSize[p]} {fsBytes[p]} :: p != sid(name) ==> fsSize[p] == old(fsSize)[p] && fsBytes[p] == old(fsBytes)[p]
 //@   modifies fsExists, fsData, fsSize, fsBytes, fdPath, fdMode, fdClosed, failBudget
 //@   at call os.OpenFile#1: requires flag & 512 == 0
@@ -38,6 +40,8 @@ package lockedfile
 
 //@ func OpenFile
 //@   names (f, err)
+//@   ensures flag & 64 == 0 ==> fsExists == old(fsExists)
+//@   ensures flag & 64 == 0 && flag & 512 == 0 ==> fsData == old(fsData) && fsSize == old(fsSize)
 //@   ensures forall p int {fsSize[p]} {fsBytes[p]} :: p != sid(name) ==> fsSize[p] == old(fsSize)[p] && fsBytes[p] == old(fsBytes)[p]
 //@   modifies fsExists, fsData, fsSize, fsBytes, fdPath, fdMode, fdClosed, failBudget, F_S_lockedfile_File_*
 //@   ensures err != nil ==> f == nil
@@ -48,6 +52,7 @@ package lockedfile
 
 //@ func Open
 //@   names (f, err)
+//@   ensures fsExists == old(fsExists) && fsData == old(fsData) && fsSize == old(fsSize)
 //@   ensures old(fsExists)[name] ==> fsSize[name] == old(fsSize)[name]
 //@   modifies fsExists, fsData, fsSize, fsBytes, fdPath, fdMode, fdClosed, failBudget, F_S_lockedfile_File_*
 //@   ensures err == nil ==> f != nil && fresh(f) && !f.closed && fresh(f.osFile.File) && !fdClosed[f.osFile.File] && fdPath[f.osFile.File] == sid(name) && fdMode[f.osFile.File] == 1
@@ -120,6 +125,7 @@ package lockedfile
 // Read: the contents are read under the shared lock, from a descriptor opened by this call.
 //@ func Read
 //@   names (data, err)
+//@   ensures fsExists == old(fsExists) && fsData == old(fsData) && fsSize == old(fsSize)
 //@   modifies fsExists, fsData, fsSize, fsBytes, fdPath, fdMode, fdClosed, failBudget, F_S_lockedfile_File_*
 //@   at call io.ReadAll#1: requires fdMode[f.osFile.File] == 1 && !fdClosed[f.osFile.File] && fdPath[f.osFile.File] == sid(name)
 //@   ensures fsBytes == old(fsBytes)
@@ -127,12 +133,17 @@ package lockedfile
 
 // io.Copy into a *File: some bytes are written to the locked file (contents left abstract).
 //@ extern io.Copy(dst, src) (written, err)
-//@   modifies fsBytes, fsSize, failBudget, new bytes
+//@   modifies fsBytes, fsSize, failBudget, fsWrites, new bytes
+//@   ensures err == nil ==> fsWrites[fdPath[cast(unbox(dst), File).osFile.File]] == old(fsWrites)[fdPath[cast(unbox(dst), File).osFile.File]] + 1
+//@   ensures forall p int {fsWrites[p]} :: p != fdPath[cast(unbox(dst), File).osFile.File] ==> fsWrites[p] == old(fsWrites)[p]
 //@   ensures forall p int {fsBytes[p]} {fsSize[p]} :: p != fdPath[cast(unbox(dst), File).osFile.File] ==> fsBytes[p] == old(fsBytes)[p] && fsSize[p] == old(fsSize)[p]
 
 // Write: truncation and writing happen only under the exclusive lock (O_TRUNC is
 // stripped from the open and applied after the lock is held: see openFile).
 //@ func Write
-//@   modifies fsExists, fsData, fsSize, fsBytes, fdPath, fdMode, fdClosed, failBudget, F_S_lockedfile_File_*
+//@   names (err)
+//@   modifies fsExists, fsData, fsSize, fsBytes, fsWrites, fdPath, fdMode, fdClosed, failBudget, F_S_lockedfile_File_*
+//@   ensures err == nil ==> fsWrites[name] > old(fsWrites)[name]
+//@   ensures forall p int {fsWrites[p]} :: p != sid(name) ==> fsWrites[p] == old(fsWrites)[p]
 //@   at call io.Copy#1: requires fdMode[f.osFile.File] == 2 && !fdClosed[f.osFile.File] && fdPath[f.osFile.File] == sid(name)
 //@   ensures forall p int {fsBytes[p]} {fsSize[p]} :: p != sid(name) ==> fsBytes[p] == old(fsBytes)[p] && fsSize[p] == old(fsSize)[p]
